@@ -48,11 +48,15 @@ TrSize ==
   /\ IF Ev.fam = "cpc" THEN over' = over + (IF Ev.len > Ev.maxlen THEN 1 ELSE 0) /\ total' = total + 1
      ELSE UNCHANGED <<over, total>>
 
-\* CPC images exceed max_serialized_bytes(lg_k) no more often than the documented 0.1%: with at most
-\* 4000 checkpoints per trace file the binomial(n, 0.001) tail above 12 is below 10^-9
+\* CPC images exceed max_serialized_bytes(lg_k) no more often than the documented 0.1%. Allowed(n): the
+\* smallest t with P(Binomial(n, 0.001) > t) < 10^-9, tabulated (all CPC checkpoints of a run are written
+\* to one trace file, so that a systematic excess is not diluted over the shards)
+Allowed(n) == IF n <= 100 THEN 6 ELSE IF n <= 200 THEN 7 ELSE IF n <= 300 THEN 8 ELSE IF n <= 500 THEN 9
+              ELSE IF n <= 700 THEN 10 ELSE IF n <= 1000 THEN 11 ELSE IF n <= 1500 THEN 13 ELSE IF n <= 2000 THEN 15
+              ELSE IF n <= 3000 THEN 18 ELSE IF n <= 4000 THEN 21 ELSE IF n <= 6000 THEN 26 ELSE 30
 TrEnd ==
   /\ IsEv("End")
-  /\ On("C18") => (total <= 4000 /\ over <= 12)
+  /\ On("C18") => (total <= 8000 /\ over <= Allowed(total))
   /\ UNCHANGED <<over, total>>
 
 TrPanic == IsEv("Panic") /\ FALSE /\ UNCHANGED <<over, total>>
